@@ -171,6 +171,23 @@ CHECKS = {
              're-read; writes must raise ReadOnlyHistoryError and leave the commit lock free; future points must be refused.',
         note='FileStorage histories without pack; sampled bounds (5 per commit) in quick',
         design='6/C15'),
+    'C16': dict(
+        technique='TLA+ spec ZDemo (DemoStorage as a stack of ZHistory layers: transcription of loadBefore with the seam walk, '
+                  'load, loadSerial, getTid, history, iterator, lastTransaction, store with conflict detection/resolution across '
+                  'the layers, undo, new_oid, pack, push/pop, next to the meaning ObsTable(base o changes)) model-checked by TLC; '
+                  'TLC-evaluated directed scenarios (ZDemoScript), TLC counterexamples and TLC-simulated behaviours replayed '
+                  'call-by-call on real DemoStorage stacks',
+        text='TLC checks DemoObs / TidsIncreaseAcrossLayers / BaseUnchanged / ConflictAcrossLayers / UndoInChangesOnly / '
+             'OidFreshBothLayers / PushPop for the repaired design and Explained for the code as it is (deviations behind '
+             'constants), per base x changes kind; conformance: after every call on DemoStorage(base in {mapping, file}, '
+             'changes in {mapping, file, file+blobs, own}) incl. push/pop and adversarial _next_oid the outcome, the full '
+             'query table (loadBefore at every tid boundary, load, loadSerial, getTid, history at every size, iterator whole '
+             'and from every start, undoLog, lastTransaction, len) must equal what TLC printed, and every storage below the '
+             'top must be byte/record-identical to its snapshot; states where TLC says transcription != meaning and the code '
+             'conforms are reported with the cause as signature.',
+        note='bounded (2 oids, <=3 layers; exhaustive <= 2+3 transactions, scenarios/simulation <= 12); base not packed; blob '
+             'records in C13; F10 fixed (b44a8d5); F24, F25, F26 known findings; c16.TREE holds the deviation constants of the tree',
+        design='6/C16'),
     'C17': dict(
         technique='TLA+ specs ZRecover (transcription of BaseStorage.copy + FileStorage.restore/_data_find at history level, '
                   'CopyFaithful), ZRecoverTool (fsrecover loop) and ZRecoverScan (transcription of scan(), liveness) model-checked '
